@@ -1,6 +1,7 @@
 From Coq Require Import List NArith ZArith.
 From Stam Require Import Model.Offset Model.Json Model.TempId Model.StamJson Spec.StamJsonSpec Proofs.StamJson Proofs.StamJsonSave
-     Proofs.StamJsonLoad Proofs.StamJsonAnn Proofs.StamJsonWhole Proofs.StamJsonSub Props.C05.
+     Proofs.StamJsonLoad Proofs.StamJsonAnn Proofs.StamJsonWhole Proofs.StamJsonSub
+     Model.Store Model.StamJsonView Proofs.StoreSets Proofs.CsvReach Proofs.StamJsonReach Props.C05.
 Check (C05_value_codec : forall v, parse_val (json_of_val v) = Some v).
 Check (C05_selector_codec : forall k ls, target_ok k ls -> parse_target (json_of_target k ls) = Some (k, ls)).
 Check (C05_document_codec : forall b, bstore_ok b -> parse_bstore (json_of_bstore b) = Some b).
@@ -31,3 +32,8 @@ Print Assumptions Known_C05_reserved_id_witness.
 Print Assumptions C05_no_substores_encode.
 Print Assumptions C05_no_substores_decode.
 Print Assumptions C05_documents_in_order.
+Check (C05_reachable_roundtrip : forall ops,
+  Forall op_ok ops -> Forall kind_ok ops -> sizes_fit (run ops) -> roundtrip_ok (view (run ops) 0 0)).
+Print Assumptions C05_reachable_wellformed.
+Print Assumptions C05_reachable_roundtrip.
+Print Assumptions C05_reachable_roundtrip_standoff.
